@@ -50,7 +50,7 @@ TIERS = {
     "thorough": {
         "top": dict(MAXFILES=0, PERMUTE="TRUE", TOPKINDS=ALL_TOP, P3KINDS='{"py","so","ns","init","initpyi","pkgutil"}', PTHFORMS='{"abs","rel"}', DROP="{}"),
         "sub": dict(MAXFILES=4, PERMUTE="TRUE", TOPKINDS="{}", P3KINDS="{}", PTHFORMS='{"abs"}', DROP="{}"),
-        "ns": dict(MAXFILES=3, PERMUTE="TRUE", TOPKINDS="{}", P3KINDS="{}", PTHFORMS='{"abs"}', DROP="{}"),
+        "ns": dict(MAXFILES=3, PERMUTE="TRUE", TOPKINDS="{}", P3KINDS="{}", PTHFORMS='{"abs"}', DROP='{"y.py"}'),
         "stubs": dict(MAXFILES=2, PERMUTE="TRUE", TOPKINDS='{"absent","py","init","initboth","ns"}', P3KINDS="{}", PTHFORMS='{"abs"}', DROP="{}"),
         "ext": dict(MAXFILES=5, PERMUTE="TRUE", TOPKINDS="{}", P3KINDS="{}", PTHFORMS='{"abs"}', DROP="{}"),
     },
